@@ -31,12 +31,15 @@ GROUPS = {
  'insert': ('dcmmeta.py: per-key dictionary edits of merges (_change_class, _insert_slice, _insert_non_slice, _insert_sample)',
    [('change_class_is_model', 'change_class_eq'), ('reclassify_is_model', 'reclassify_eq'), ('insert_slice_is_model', 'insert_slice_eq'),
     ('insert_non_slice_is_model', 'insert_non_slice_eq'), ('insert_sample_is_model', 'insert_sample_eq')]),
+ 'subset': ('dcmmeta.py: per-key dictionary edits of subsets (_copy_slice, _copy_sample)',
+   [('copy_slice_is_model', 'copy_slice_eq'), ('copy_sample_is_model', 'copy_sample_eq')]),
  'stackadd': ('dcmstack.py: DicomStack.add_dcm, _chk_congruent, _chk_close, _chk_equal',
    [('chk_congruent_is_model', 'chk_congruent_eq'), ('add_dcm_is_model', 'add_dcm_eq')]),
  'data': ('dcmstack.py: DicomStack.get_data',
    [('file_idx_is_model', 'file_idx_eq'), ('file_idx_volume_is_model', 'file_idx_volume_eq'),
     ('get_data_trim_is_model', 'get_data_trim_eq')]),
 }
+EXTRA = {'subset': 'variable [DecidableEq α]\n'}
 OPENS = {'stackadd': 'Src Stk', 'stack': 'Src Stk', 'data': 'Src Stk Wrap', 'wrapsplit': 'Src Wrap', 'wrapmerge': 'Src Wrap'}
 for grp, (srcfile, pairs) in GROUPS.items():
     mod = 'Code_' + grp
@@ -47,8 +50,8 @@ for grp, (srcfile, pairs) in GROUPS.items():
            "(`tools/gen_code.py` → `Generated/%s.lean`) are the model functions the property theorems speak about.\n"
            "Statements only; proofs are by reference to `Proofs/%s.lean`. One file per function group, so that an edit\n"
            "of one function only unsettles the properties that depend on it. -/\n"
-           "set_option autoImplicit false\nset_option linter.unusedVariables false\nopen Cls\n\nnamespace Source\nvariable {α κ : Type}\nopen %s\n\n"
-           % (mod, srcfile, mod, mod, OPENS.get(grp, "Src")))
+           "set_option autoImplicit false\nset_option linter.unusedVariables false\nopen Cls\n\nnamespace Source\nvariable {α κ : Type}\nopen %s\n%s\n"
+           % (mod, srcfile, mod, mod, OPENS.get(grp, "Src"), EXTRA.get(grp, "")))
     for new, orig in pairs:
         out += G.emit(new, orig) + "\n"
     out += ("/-- the translator translated every function of this group (%s) -/\ntheorem translator_complete_%s : Gen.codeMissing_%s = [] := rfl\n\nend Source\n"
